@@ -38,12 +38,27 @@ var blockTimes = []time.Time{
 
 var runtimeR1 = []byte{0x5b, 0x00}
 
+var maxKey = new(big.Int).Sub(new(big.Int).Lsh(big.NewInt(1), 256), big.NewInt(1))
+
 type createSpec struct {
 	caller common.Address
-	salt   byte
+	salt   *big.Int
 	init   []byte
 	kind   int
 	addr   common.Address
+}
+
+// a CREATE2 at an address of a boundary class: the salt is mined (deterministic in caller, init code, class, start)
+func newSpec(r *Rng, caller common.Address, beneficiary common.Address) createSpec {
+	sp := createSpec{caller: caller, kind: r.Intn(5)}
+	sp.init = initCode(sp.kind, beneficiary)
+	cls := randClass(r)
+	if cls == clsLastFFFF && !r.Chance(25) {
+		cls = clsLastFF
+	}
+	sp.salt = mineSalt(caller, sp.init, cls, int64(1+r.Intn(3)))
+	sp.addr = ethcrypto.CreateAddress2(sp.caller, salt32(sp.salt), ethcrypto.Keccak256(sp.init))
+	return sp
 }
 
 func initCode(kind int, beneficiary common.Address) []byte {
@@ -53,7 +68,7 @@ func initCode(kind int, beneficiary common.Address) []byte {
 	case 1:
 		return initReturning(runtimeR1, nil)
 	case 2:
-		return initReturning(runtimeR1, (&asm{}).sstore(1, 7))
+		return initReturning(runtimeR1, (&asm{}).sstore(1, 7).sstore(0, 9))
 	case 3:
 		return (&asm{}).revert().b
 	default:
@@ -61,9 +76,9 @@ func initCode(kind int, beneficiary common.Address) []byte {
 	}
 }
 
-func salt32(s byte) [32]byte {
+func salt32(s *big.Int) [32]byte {
 	var x [32]byte
-	x[31] = s
+	s.FillBytes(x[:])
 	return x
 }
 
@@ -72,39 +87,79 @@ func newWorld(t *testing.T, c *Chain, ctx sdk.Context, now time.Time, r *Rng, si
 		desc: map[common.Address]string{}, now: now, r: r, side: side}
 }
 
-// program for a planted contract: a few steps over the universe
-func (w *world) program(specs []createSpec, depth int) ([]byte, string) {
+// target of a touch or a foreign write: the case's hot address, or any address of the universe
+func (w *world) target() common.Address {
+	if w.r.Chance(45) {
+		return w.hot
+	}
+	return w.pick()
+}
+
+// program for a planted contract (address self): a few steps over the universe. Touches (calls, self-destruct
+// beneficiaries of children), reads that ask the StateDB about an address, and writes of other modules (ERC-20 and
+// staking precompiles) aim at the same few addresses, so that "touched / asked about, then changed behind the back of
+// the StateDB" happens within one call tree in both orders.
+func (w *world) program(self common.Address, specs []createSpec, depth int) ([]byte, string) {
+	if w.r.Chance(30) {
+		return w.scenarioProgram(self)
+	}
 	a := &asm{}
 	var d []string
-	n := 1 + w.r.Intn(3)
+	n := 1 + w.r.Intn(5)
 	for i := 0; i < n; i++ {
-		switch w.r.Intn(6) {
-		case 0, 1:
-			to := w.pick()
+		switch x := w.r.Intn(100); {
+		case x < 18:
+			to := w.target()
 			v := Bi(int64(w.r.Intn(3)))
+			if w.r.Chance(40) {
+				v = Bi(0)
+			}
 			a.call(to, v)
 			d = append(d, fmt.Sprintf("call(%s,%s)", w.desc[to], v))
-		case 2:
-			k, v := byte(1+w.r.Intn(6)), byte(w.r.Intn(3))
-			a.sstore(k, v)
-			d = append(d, fmt.Sprintf("sstore(%d,%d)", k, v))
-		case 3:
+		case x < 28:
+			if w.r.Bool() {
+				k, v := byte(1+w.r.Intn(6)), byte(w.r.Intn(3))
+				a.sstore(k, v)
+				d = append(d, fmt.Sprintf("sstore(%d,%d)", k, v))
+			} else {
+				k := boundaryKey(w.r)
+				a.sstoreBig(k, Bi(int64(1+w.r.Intn(3))))
+				d = append(d, fmt.Sprintf("sstore(%s)", k.Text(16)))
+			}
+		case x < 36:
 			if len(specs) > 0 {
 				// the spec's address assumes its own caller; from another contract the address differs (recorded anyway)
 				sp := specs[w.r.Intn(len(specs))]
 				a.create2(sp.init, Bi(int64(w.r.Intn(2))), sp.salt)
-				d = append(d, fmt.Sprintf("create2(init%d,salt%d)", sp.kind, sp.salt))
+				d = append(d, fmt.Sprintf("create2(init%d,salt%s)", sp.kind, sp.salt))
 			}
-		case 4:
+		case x < 42:
 			k := w.r.Intn(5)
-			a.create(initCode(k, w.pick()), Bi(int64(w.r.Intn(2))))
+			a.create(initCode(k, w.target()), Bi(int64(w.r.Intn(2))))
 			d = append(d, fmt.Sprintf("create(init%d)", k))
+		case x < 58:
+			// a child that self-destructs toward the target: Empty(target) is asked (gas) and the target is touched
+			to := w.target()
+			v := Bi(0)
+			if w.r.Chance(25) {
+				v = Bi(1)
+			}
+			a.createSD(to, v)
+			d = append(d, fmt.Sprintf("createSD(->%s,%s)", w.desc[to], v))
+		case x < 68:
+			to := w.target()
+			k := w.r.Intn(3)
+			a.probe(to, k)
+			d = append(d, fmt.Sprintf("%s(%s)", []string{"extcodehash", "balance", "extcodesize"}[k], w.desc[to]))
 		default:
+			cc := w.cpcCall(w.ctx, self)
+			a.callData(cc.to, Bi(0), cc.data)
+			d = append(d, cc.desc)
 		}
 	}
 	switch w.r.Intn(6) {
 	case 0, 1:
-		b := w.pick()
+		b := w.target()
 		a.selfdestruct(b)
 		d = append(d, "selfdestruct->"+w.desc[b])
 	case 2:
@@ -114,6 +169,133 @@ func (w *world) program(specs []createSpec, depth int) ([]byte, string) {
 		a.stop()
 	}
 	return a.b, strings.Join(d, ";")
+}
+
+// wipeProgram: a contract that writes a few more slots (boundary keys among them) and self-destructs; its storage was
+// planted with many slots. Everything under its address must be gone afterwards, and nothing of its neighbours.
+func (w *world) wipeProgram(safe common.Address) ([]byte, string) {
+	a := &asm{}
+	var d []string
+	for i := w.r.Intn(3); i > 0; i-- {
+		k := boundaryKey(w.r)
+		a.sstoreBig(k, Bi(int64(1+w.r.Intn(3))))
+		d = append(d, "sstore("+k.Text(16)+")")
+	}
+	b := safe
+	if w.r.Chance(30) {
+		b = w.target()
+	}
+	a.selfdestruct(b)
+	d = append(d, "selfdestruct->"+w.desc[b])
+	return a.b, "WIPE " + strings.Join(d, ";")
+}
+
+// plantNeighbours gives every unused member of the boundary family storage (and sometimes code): they are the
+// addresses next to the wiped one in key order.
+func (w *world) plantNeighbours() {
+	for _, a := range w.fam {
+		if w.inUni[a] {
+			continue
+		}
+		w.add(a, "")
+		if w.r.Bool() {
+			w.desc[a] = "neighbour:" + w.plantRole(a, rStorageOnly, nil)
+		} else {
+			w.plantRole(a, rContract, runtimeR1)
+			w.plantStorage(a)
+			w.desc[a] = "neighbour:contract"
+		}
+	}
+	w.fam = nil
+}
+
+// scenarioProgram: the hot address is asked about and touched, and LATER in the same call tree paid (or, when it
+// holds coins, drained) through a precompile, with no revert in between; a few unrelated steps are mixed in.
+func (w *world) scenarioProgram(self common.Address) ([]byte, string) {
+	a := &asm{}
+	var d []string
+	x := w.hot
+	noise := func() {
+		switch w.r.Intn(4) {
+		case 0:
+			k, v := byte(1+w.r.Intn(6)), byte(1+w.r.Intn(2))
+			a.sstore(k, v)
+			d = append(d, fmt.Sprintf("sstore(%d,%d)", k, v))
+		case 1:
+			to := w.pick()
+			a.probe(to, w.r.Intn(3))
+			d = append(d, "probe("+w.desc[to]+")")
+		}
+	}
+	// the contract can pay in every denomination
+	w.setBalance(self, []*big.Int{Bi(5000), Bi(5000), Bi(5000)}, true)
+	dn := w.r.Intn(len(w.denoms))
+	bal := w.c.App.BankKeeper.GetBalance(w.ctx, x.Bytes(), w.denoms[dn]).Amount.BigInt()
+	drain := bal.Sign() > 0 && w.r.Chance(60)
+	touch := func() {
+		if w.r.Chance(40) {
+			k := w.r.Intn(3)
+			a.probe(x, k)
+			d = append(d, fmt.Sprintf("%s(hot)", []string{"extcodehash", "balance", "extcodesize"}[k]))
+		}
+		switch w.r.Intn(3) {
+		case 0:
+			a.call(x, Bi(0))
+			d = append(d, "call(hot,0)")
+		default:
+			a.createSD(x, Bi(0))
+			d = append(d, "createSD(->hot,0)")
+		}
+	}
+	pay := func() {
+		amt := Bi(int64(1 + w.r.Intn(100)))
+		a.callData(w.cpc.erc20[dn], Bi(0), cdTransfer(x, amt))
+		d = append(d, fmt.Sprintf("erc20[%d].transfer(hot,%s)", dn, amt))
+	}
+	drainAll := func() {
+		// everything the hot address holds, in every denomination, leaves it through transferFrom / burnFrom
+		for i := range w.denoms {
+			b := w.c.App.BankKeeper.GetBalance(w.ctx, x.Bytes(), w.denoms[i]).Amount.BigInt()
+			if b.Sign() == 0 {
+				continue
+			}
+			w.c.App.CPCKeeper.SetErc20CpcAllowance(w.ctx, x, self, new(big.Int).Lsh(Bi(1), 200))
+			if w.r.Chance(70) {
+				a.callData(w.cpc.erc20[i], Bi(0), cdTransferFrom(x, self, b))
+				d = append(d, fmt.Sprintf("erc20[%d].transferFrom(hot,self,%s)", i, b))
+			} else {
+				a.callData(w.cpc.erc20[i], Bi(0), cdBurnFrom(x, b))
+				d = append(d, fmt.Sprintf("erc20[%d].burnFrom(hot,%s)", i, b))
+			}
+		}
+	}
+	noise()
+	if drain {
+		if w.r.Bool() {
+			touch()
+			noise()
+			drainAll()
+		} else {
+			drainAll()
+			noise()
+			touch()
+		}
+		w.side.Count("scenario_program:touch+drain")
+	} else {
+		if w.r.Chance(80) {
+			touch()
+			noise()
+			pay()
+		} else {
+			pay()
+			noise()
+			touch()
+		}
+		w.side.Count("scenario_program:touch+pay")
+	}
+	noise()
+	a.stop()
+	return a.b, "SCENARIO " + strings.Join(d, ";")
 }
 
 func (w *world) describe() []string {
@@ -126,36 +308,73 @@ func (w *world) describe() []string {
 
 // ---------------------------------------------------------------- mode A
 
-func caseA(t *testing.T, c *Chain, idx int, r *Rng, side *Sidecar, cases *CasesFile) {
+// pickHot chooses the case's hot address: preferably one that holds nothing (absent, empty base account, ended
+// vesting account with everything delegated) or only coins - the ones whose emptiness other modules can change.
+func (w *world) pickHot(cands []common.Address) {
+	var light []common.Address
+	for _, a := range cands {
+		d := w.desc[a]
+		if strings.HasPrefix(d, "absent") || strings.HasPrefix(d, "empty-base") || strings.HasPrefix(d, "balance-without") || strings.HasPrefix(d, "vesting") {
+			light = append(light, a)
+		}
+	}
+	if len(light) > 0 && w.r.Chance(70) {
+		w.hot = light[w.r.Intn(len(light))]
+	} else {
+		w.hot = cands[w.r.Intn(len(cands))]
+	}
+	w.side.Count("hot:" + strings.SplitN(w.desc[w.hot], " ", 2)[0])
+}
+
+func caseA(t *testing.T, c *Chain, cpc *cpcEnv, idx int, r *Rng, side *Sidecar, cases *CasesFile) {
 	now := blockTimes[r.Intn(len(blockTimes))].Add(time.Duration(r.Intn(1000)) * time.Second)
 	ctx, _ := c.Ctx().WithBlockTime(now).CacheContext()
 	ctx = ctx.WithEventManager(sdk.NewEventManager())
 	w := newWorld(t, c, ctx, now, r, side)
+	w.cpc = cpc
+	if r.Chance(65) {
+		w.fam = boundaryFamily(r)
+	}
 	w.addModules()
 
 	callers := []common.Address{plainAddr(0), plainAddr(1)}
 	for _, k := range callers {
 		w.add(k, "caller")
-		w.plantBase(k, uint64(r.Intn(3)))
-		w.setBalance(k, []*big.Int{new(big.Int).Add(Bi(1_000_000), w.amount()), w.amount(), Bi(0)}, true)
+		// the caller's nonce decides where its CREATE lands: mined onto a boundary class half of the time
+		nonce := uint64(r.Intn(3))
+		if r.Bool() {
+			nonce = mineNonce(k, randClass(r), uint64(r.Intn(3)))
+		}
+		w.plantBase(k, nonce)
+		w.setBalance(k, []*big.Int{new(big.Int).Add(Bi(1_000_000), w.amount()), w.amount(), w.amount()}, true)
 	}
+	// contracts with programs get their addresses first: boundary addresses when the case has a family
+	nProg := 1 + r.Intn(3)
+	var progs []common.Address
+	for i := 0; i < nProg; i++ {
+		a := w.nextAddr()
+		w.add(a, "contract")
+		progs = append(progs, a)
+	}
+	var cands []common.Address
 	nPlain := 3 + r.Intn(4)
 	for i := 0; i < nPlain; i++ {
-		a := plainAddr(2 + i)
+		a := w.nextAddr()
 		ro := w.randomRole()
 		w.add(a, "")
 		w.desc[a] = w.plantRole(a, ro, nil)
+		cands = append(cands, a)
 		side.Count("role:" + strings.SplitN(w.desc[a], " ", 2)[0])
+		side.Count(boundaryLabel(a))
 	}
+	w.pickHot(cands)
 	if r.Chance(30) {
 		w.add(common.BytesToAddress([]byte{1}), "precompile-ecrecover")
 	}
 	// addresses that CREATE2 / CREATE will hit, planted with accounts of every kind
 	var specs []createSpec
 	for i := 0; i < 3; i++ {
-		sp := createSpec{caller: callers[r.Intn(2)], salt: byte(1 + r.Intn(2)), kind: r.Intn(5)}
-		sp.init = initCode(sp.kind, plainAddr(2))
-		sp.addr = ethcrypto.CreateAddress2(sp.caller, salt32(sp.salt), ethcrypto.Keccak256(sp.init))
+		sp := newSpec(r, callers[r.Intn(2)], w.hot)
 		specs = append(specs, sp)
 		if !w.inUni[sp.addr] {
 			w.add(sp.addr, "")
@@ -165,6 +384,7 @@ func caseA(t *testing.T, c *Chain, idx int, r *Rng, side *Sidecar, cases *CasesF
 			}
 			w.desc[sp.addr] = "create2-target:" + w.plantRole(sp.addr, ro, nil)
 			side.Count("role:create2-target:" + strings.SplitN(strings.TrimPrefix(w.desc[sp.addr], "create2-target:"), " ", 2)[0])
+			side.Count("create2-target-" + boundaryLabel(sp.addr))
 		}
 	}
 	for _, k := range callers {
@@ -173,30 +393,69 @@ func caseA(t *testing.T, c *Chain, idx int, r *Rng, side *Sidecar, cases *CasesF
 			if !w.inUni[a] {
 				w.add(a, "")
 				w.desc[a] = "create-target:" + w.plantRole(a, w.randomRole(), nil)
+				side.Count("create-target-" + boundaryLabel(a))
 			}
 		}
 	}
-	// contracts with programs over this universe
-	nProg := 1 + r.Intn(3)
-	for i := 0; i < nProg; i++ {
-		a := plainAddr(20 + i)
-		code, d := w.program(specs, 0)
-		w.add(a, "")
-		w.plantRole(a, rContract, code)
+	// the programs over this universe
+	wipe := r.Chance(22)
+	for i, a := range progs {
+		w.plantRole(a, rContract, []byte{0})
+		code, d := w.program(a, specs, 0)
+		if wipe && i == 0 {
+			code, d = w.wipeProgram(callers[0])
+			w.plantStorage(a)
+			w.plantStorage(a)
+			side.Count("scenario_wipe:" + boundaryLabel(a))
+		}
+		w.plantCode(a, code)
 		w.desc[a] = "contract{" + d + "}"
+		side.Count("contract-" + boundaryLabel(a))
+	}
+	if wipe {
+		w.plantNeighbours()
 	}
 	w.ct.id(runtimeR1)
 
 	run := newRun(w, callers[0])
 	onlyEvm := r.Chance(35)
-	nAct := 2 + r.Intn(6)
+	nAct := 2 + r.Intn(7)
 	var acts []string
-	for i := 0; i < nAct && !run.failed; i++ {
-		x := r.Intn(100)
-		if onlyEvm {
-			x = 60 + r.Intn(40)
+	anyAddr := func() common.Address { return w.target() }
+	if wipe {
+		v := progs[0]
+		var d string
+		switch r.Intn(6) {
+		case 0:
+			d = "Suicide " + w.desc[v]
+			run.do(false, v, d, func() { run.db.Suicide(v) })
+		case 1:
+			d = "CreateAccount " + w.desc[v]
+			run.do(false, v, d, func() { run.db.CreateAccount(v) })
+		default:
+			from := callers[r.Intn(2)]
+			d = "evm.Call " + w.desc[v] + " value 0"
+			run.do(true, v, d, func() {
+				run.db.AddAddressToAccessList(from)
+				run.db.AddAddressToAccessList(v)
+				_, _, _ = run.evm.Call(corevm.AccountRef(from), v, nil, 5_000_000, Bi(0))
+			})
 		}
-		a := w.pick()
+		acts = append(acts, d)
+		side.Count("action:" + strings.Fields(d)[0])
+		nAct = r.Intn(4)
+		onlyEvm = false
+	} else if r.Chance(28) {
+		acts = scriptedA(w, run, callers, progs)
+		nAct = r.Intn(3) // a few random actions after the script
+		onlyEvm = false
+	}
+	for i := 0; i < nAct && !run.failed; i++ {
+		x := r.Intn(130)
+		if onlyEvm {
+			x = 60 + r.Intn(58)
+		}
+		a := anyAddr()
 		var d string
 		switch {
 		case x < 7:
@@ -207,6 +466,9 @@ func caseA(t *testing.T, c *Chain, idx int, r *Rng, side *Sidecar, cases *CasesF
 			run.do(false, a, d, func() { run.db.DestroyAccount(a) })
 		case x < 20:
 			v := w.amount()
+			if r.Chance(35) {
+				v = Bi(0) // a touch
+			}
 			d = fmt.Sprintf("AddBalance %s %s", w.desc[a], v)
 			run.do(false, a, d, func() { run.db.AddBalance(a, v) })
 		case x < 30:
@@ -244,9 +506,12 @@ func caseA(t *testing.T, c *Chain, idx int, r *Rng, side *Sidecar, cases *CasesF
 			d = fmt.Sprintf("SetCode %s len=%d", w.desc[a], len(code))
 			run.do(false, a, d, func() { run.db.SetCode(a, code) })
 		case x < 46:
-			k, v := int64(1+r.Intn(6)), int64(r.Intn(3))
-			d = fmt.Sprintf("SetState %s %d %d", w.desc[a], k, v)
-			run.do(false, a, d, func() { run.db.SetState(a, common.BigToHash(Bi(k)), common.BigToHash(Bi(v))) })
+			k, v := Bi(int64(1+r.Intn(6))), int64(r.Intn(3))
+			if r.Chance(40) {
+				k = boundaryKey(r)
+			}
+			d = fmt.Sprintf("SetState %s %s %d", w.desc[a], k.Text(16), v)
+			run.do(false, a, d, func() { run.db.SetState(a, common.BigToHash(k), common.BigToHash(Bi(v))) })
 		case x < 54:
 			d = "Suicide " + w.desc[a]
 			run.do(false, a, d, func() { run.db.Suicide(a) })
@@ -263,9 +528,12 @@ func caseA(t *testing.T, c *Chain, idx int, r *Rng, side *Sidecar, cases *CasesF
 			}
 			d = fmt.Sprintf("RevertTo %d", id)
 			run.do(false, a, d, func() { run.db.RevertToSnapshot(id) })
-		case x < 88:
+		case x < 82:
 			from := callers[r.Intn(2)]
 			v := []*big.Int{Bi(0), Bi(0), Bi(1), Bi(int64(1 + r.Intn(500))), Bi(2_000_000)}[r.Intn(5)]
+			if r.Chance(50) {
+				a = progs[r.Intn(len(progs))]
+			}
 			d = fmt.Sprintf("evm.Call %s value %s", w.desc[a], v)
 			run.do(true, a, d, func() {
 				// what PrepareAccessList does for a transaction's sender and destination
@@ -273,7 +541,19 @@ func caseA(t *testing.T, c *Chain, idx int, r *Rng, side *Sidecar, cases *CasesF
 				run.db.AddAddressToAccessList(a)
 				_, _, _ = run.evm.Call(corevm.AccountRef(from), a, nil, 5_000_000, v)
 			})
-		case x < 97:
+		case x < 100:
+			// a precompile called by any address of the universe: the coins move through the bank keeper on the StateDB's
+			// current context; the caller is touched by the interpreter, the recipient is not
+			from := a
+			if r.Chance(60) {
+				from = w.payer(run.db.GetCurrentContext(), r.Intn(len(w.denoms)))
+			}
+			cc := w.cpcCall(run.db.GetCurrentContext(), from)
+			d = fmt.Sprintf("evm.CallCpc from %s: %s", w.desc[from], cc.desc)
+			run.do(true, w.hot, d, func() {
+				_, _, _ = run.evm.Call(corevm.AccountRef(from), cc.to, cc.data, 5_000_000, Bi(0))
+			})
+		case x < 110:
 			sp := specs[r.Intn(len(specs))]
 			v := Bi(int64(r.Intn(3)))
 			d = fmt.Sprintf("evm.Create2 init%d at %s value %s", sp.kind, w.desc[sp.addr], v)
@@ -281,14 +561,40 @@ func caseA(t *testing.T, c *Chain, idx int, r *Rng, side *Sidecar, cases *CasesF
 				s := salt32(sp.salt)
 				_, _, _, _ = run.evm.Create2(corevm.AccountRef(sp.caller), sp.init, 5_000_000, v, new(uint256.Int).SetBytes(s[:]))
 			})
-		default:
+		case x < 114:
 			from := callers[r.Intn(2)]
 			target := ethcrypto.CreateAddress(from, run.db.GetNonce(from))
 			k := r.Intn(5)
 			d = fmt.Sprintf("evm.Create init%d at %s", k, w.desc[target])
 			run.do(true, target, d, func() {
-				_, _, _, _ = run.evm.Create(corevm.AccountRef(from), initCode(k, plainAddr(2)), 5_000_000, Bi(int64(r.Intn(2))))
+				_, _, _, _ = run.evm.Create(corevm.AccountRef(from), initCode(k, w.hot), 5_000_000, Bi(int64(r.Intn(2))))
 			})
+		case x < 118:
+			// only asks: Exist / Empty / GetBalance / GetNonce / GetCodeHash of an address (compared with the model)
+			d = "Probe " + w.desc[a]
+			run.do(true, a, d, func() {})
+		default:
+			// another module writes on the StateDB's current context
+			dn := r.Intn(len(w.denoms))
+			from, to := w.payer(run.db.GetCurrentContext(), dn), a
+			if r.Chance(30) {
+				from = w.target()
+			}
+			amt := w.foreignAmount(run.db.GetCurrentContext(), from, dn)
+			if r.Chance(5) {
+				amt = Bi(0)
+			}
+			switch y := r.Intn(10); {
+			case y < 6:
+				d = fmt.Sprintf("Foreign.Send %s -> %s denom %d %s", w.desc[from], w.desc[to], dn, amt)
+				run.do(false, to, d, func() { run.foreignSend(from, to, dn, amt) })
+			case y < 8:
+				d = fmt.Sprintf("Foreign.Burn %s denom %d %s", w.desc[from], dn, amt)
+				run.do(false, from, d, func() { run.foreignBurn(from, dn, amt) })
+			default:
+				d = fmt.Sprintf("Foreign.Delegate %s denom %d %s", w.desc[from], dn, amt)
+				run.do(false, from, d, func() { run.foreignDelegate(from, dn, amt) })
+			}
 		}
 		acts = append(acts, d)
 		side.Count("action:" + strings.Fields(d)[0])
@@ -297,22 +603,167 @@ func caseA(t *testing.T, c *Chain, idx int, r *Rng, side *Sidecar, cases *CasesF
 	finishCase(t, idx, "A", run, acts, onlyEvm, side, cases)
 }
 
+// scriptedA: the hot address is touched (and asked about) and LATER paid by a write of another module - or, when it
+// holds coins, drained by one - within one StateDB life, no revert in between. Every step is an ordinary action.
+func scriptedA(w *world, run *run, callers, progs []common.Address) []string {
+	r, x := w.r, w.hot
+	var acts []string
+	act := func(evm bool, focus common.Address, d string, f func()) {
+		if run.failed {
+			return
+		}
+		run.do(evm, focus, d, f)
+		acts = append(acts, d)
+		w.side.Count("action:" + strings.Fields(d)[0])
+	}
+	cur := func() sdk.Context { return run.db.GetCurrentContext() }
+	touch := func() {
+		switch r.Intn(5) {
+		case 0:
+			act(false, x, "AddBalance "+w.desc[x]+" 0", func() { run.db.AddBalance(x, Bi(0)) })
+		case 1:
+			act(false, x, "SubBalance "+w.desc[x]+" 0", func() { run.db.SubBalance(x, Bi(0)) })
+		case 2:
+			from := callers[r.Intn(2)]
+			act(true, x, "evm.Call "+w.desc[x]+" value 0", func() {
+				run.db.AddAddressToAccessList(from)
+				run.db.AddAddressToAccessList(x)
+				_, _, _ = run.evm.Call(corevm.AccountRef(from), x, nil, 5_000_000, Bi(0))
+			})
+		default:
+			// a contract without balance self-destructs toward the hot address
+			from := callers[r.Intn(2)]
+			act(true, x, "evm.Create selfdestruct->"+w.desc[x], func() {
+				_, _, _, _ = run.evm.Create(corevm.AccountRef(from), (&asm{}).selfdestruct(x).b, 5_000_000, Bi(0))
+			})
+		}
+		if r.Chance(40) {
+			act(true, x, "Probe "+w.desc[x], func() {})
+		}
+	}
+	noise := func() {
+		if r.Chance(50) {
+			a := w.pick()
+			if a != x {
+				act(true, a, "Probe "+w.desc[a], func() {})
+			}
+		}
+	}
+	pay := func() {
+		dn := r.Intn(len(w.denoms))
+		from := w.payer(cur(), dn)
+		if from == x {
+			from = callers[0]
+			dn = 0
+		}
+		amt := Bi(int64(1 + r.Intn(50)))
+		if r.Bool() {
+			act(false, x, fmt.Sprintf("Foreign.Send %s -> %s denom %d %s", w.desc[from], w.desc[x], dn, amt), func() { run.foreignSend(from, x, dn, amt) })
+		} else {
+			act(true, x, fmt.Sprintf("evm.CallCpc from %s: erc20[%d].transfer(hot,%s)", w.desc[from], dn, amt), func() {
+				_, _, _ = run.evm.Call(corevm.AccountRef(from), w.cpc.erc20[dn], cdTransfer(x, amt), 5_000_000, Bi(0))
+			})
+		}
+	}
+	drain := func() {
+		for dn := range w.denoms {
+			dn := dn
+			b := w.c.App.BankKeeper.GetBalance(cur(), x.Bytes(), w.denoms[dn]).Amount.BigInt()
+			if b.Sign() == 0 {
+				continue
+			}
+			to := callers[1]
+			switch r.Intn(4) {
+			case 0:
+				act(false, x, fmt.Sprintf("Foreign.Send %s -> caller denom %d %s", w.desc[x], dn, b), func() { run.foreignSend(x, to, dn, b) })
+			case 1:
+				act(false, x, fmt.Sprintf("Foreign.Burn %s denom %d %s", w.desc[x], dn, b), func() { run.foreignBurn(x, dn, b) })
+			case 2:
+				act(false, x, fmt.Sprintf("Foreign.Delegate %s denom %d %s", w.desc[x], dn, b), func() { run.foreignDelegate(x, dn, b) })
+			default:
+				// the hot address itself calls the precompile (the interpreter touches the caller)
+				act(true, x, fmt.Sprintf("evm.CallCpc from %s: erc20[%d].transfer(caller,%s)", w.desc[x], dn, b), func() {
+					_, _, _ = run.evm.Call(corevm.AccountRef(x), w.cpc.erc20[dn], cdTransfer(to, b), 5_000_000, Bi(0))
+				})
+			}
+		}
+	}
+	holds := !w.c.App.BankKeeper.GetAllBalances(cur(), x.Bytes()).IsZero()
+	noise()
+	switch {
+	case holds && r.Chance(65):
+		if r.Bool() {
+			touch()
+			noise()
+			drain()
+		} else {
+			drain()
+			noise()
+			touch()
+		}
+		w.side.Count("scenario_script:touch+drain")
+	case r.Chance(80):
+		touch()
+		noise()
+		pay()
+		w.side.Count("scenario_script:touch+pay")
+	default:
+		pay()
+		noise()
+		touch()
+		w.side.Count("scenario_script:pay+touch")
+	}
+	noise()
+	return acts
+}
+
 func finishCase(t *testing.T, idx int, mode string, run *run, acts []string, onlyEvm bool, side *Sidecar, cases *CasesFile) {
 	w := run.w
 	co := &caseOut{Index: idx, Mode: mode, Now: w.now.Unix(), Uni: w.describe(), Actions: acts}
-	deleted, protReached := 0, false
+	deleted, protReached, foreign := 0, false, false
+	// who was paid / drained by a write of another module that is still in effect when the commit starts is not
+	// known from the trace alone (reverts); the histogram counts what the trace mentions
+	paid, drained := map[common.Address]bool{}, map[common.Address]bool{}
+	for _, g := range run.groups {
+		for _, o := range g.ops {
+			switch {
+			case strings.HasPrefix(o.coq, "XSend") && strings.HasSuffix(o.coq, "true"):
+				drained[o.addrs[0]], paid[o.addrs[1]], foreign = true, true, true
+				side.Count("foreign_op:send")
+			case strings.HasPrefix(o.coq, "XBurn") && strings.HasSuffix(o.coq, "true"):
+				drained[o.addrs[0]], foreign = true, true
+				side.Count("foreign_op:burn")
+			case strings.HasPrefix(o.coq, "XDelegate") && strings.HasSuffix(o.coq, "true"):
+				drained[o.addrs[0]], foreign = true, true
+				side.Count("foreign_op:delegate")
+			case strings.HasPrefix(o.coq, "X") && strings.HasSuffix(o.coq, "false"):
+				side.Count("foreign_op:refused")
+			}
+		}
+	}
 	if run.failed {
 		co.Outcome = "FAILED_AS_A_WHOLE"
 	} else {
 		co.Outcome = "OK"
-		for i := range w.addrs {
-			if run.preCom[i].Acc != nil && run.post[i].Acc == nil {
+		for i, a := range w.addrs {
+			com, post := run.preCom[i], run.post[i]
+			gone := (com.Acc != nil || holdsCodeOrStorage(com) || !zeroVec(com.Bal)) && nothingLeft(post)
+			if gone {
 				deleted++
-				if run.suicided[w.addrs[i]] {
+				if run.suicided[a] {
 					side.Count("deleted:selfdestructed")
 				} else {
 					side.Count("deleted:touched-empty")
 				}
+				if len(com.RawStor) > 0 {
+					side.Count("deleted-with-storage:" + boundaryLabel(a))
+				}
+				if drained[a] && !run.suicided[a] {
+					side.Count("scenario:drained_by_foreign_write_then_deleted_as_empty")
+				}
+			}
+			if run.touched[a] && paid[a] && !run.suicided[a] && post.Acc != nil && !zeroVec(post.Bal) && run.preTx[i].Acc == nil {
+				side.Count("scenario:fresh_address_touched_and_paid_by_foreign_write_kept")
 			}
 		}
 	}
@@ -320,9 +771,11 @@ func finishCase(t *testing.T, idx int, mode string, run *run, acts []string, onl
 		if p, why := isProtected(run.preTx[i].Acc, w.now.Unix()); p {
 			for _, g := range run.groups {
 				for _, o := range g.ops {
-					if strings.Contains(o, " "+az(w.addrs[i])) {
-						protReached = true
-						side.Count("protected_touched:" + why)
+					for _, x := range o.addrs {
+						if x == w.addrs[i] {
+							protReached = true
+							side.Count("protected_touched:" + why)
+						}
 					}
 				}
 			}
@@ -332,7 +785,7 @@ func finishCase(t *testing.T, idx int, mode string, run *run, acts []string, onl
 	run.oracle(idx, co, onlyEvm)
 	term := run.coqCase()
 	cases.Add(term)
-	side.Case(idx, term, run.failed || deleted > 0 || protReached, co)
+	side.Case(idx, term, run.failed || deleted > 0 || protReached || foreign, co)
 }
 
 // ---------------------------------------------------------------- mode B: real transactions in real blocks
@@ -348,8 +801,13 @@ func caseB(t *testing.T, idx int, r *Rng, side *Sidecar, cases *CasesFile) {
 		p.MinGasPrice = sdkmath.LegacyZeroDec()
 		require.NoError(t, c.App.FeeMarketKeeper.SetParams(ctx, p))
 	}
+	cpc := deployCpcs(t, c)
 	now := c.Time
 	w := newWorld(t, c, c.Ctx(), now, r, side)
+	w.cpc = cpc
+	if r.Chance(65) {
+		w.fam = boundaryFamily(r)
+	}
 	// app module accounts are blocked addresses; their balances move in Begin/EndBlock, so they are
 	// call targets here but not part of the compared universe
 	for _, name := range []string{"fee_collector", "evm", "distribution", "bonded_tokens_pool", "cpc", "vauth"} {
@@ -374,19 +832,27 @@ func caseB(t *testing.T, idx int, r *Rng, side *Sidecar, cases *CasesFile) {
 	}
 	from := sender.GetEthAddress()
 	nonce := c.Nonce(w.ctx, from)
+	var progs []common.Address
+	for i := 0; i < 2; i++ {
+		a := w.nextAddr()
+		w.add(a, "contract")
+		progs = append(progs, a)
+	}
+	var cands []common.Address
 	nPlain := 3 + r.Intn(3)
 	for i := 0; i < nPlain; i++ {
-		a := plainAddr(2 + i)
+		a := w.nextAddr()
 		w.add(a, "")
 		w.desc[a] = w.plantRole(a, w.randomRole(), nil)
+		cands = append(cands, a)
 		side.Count("role:" + strings.SplitN(w.desc[a], " ", 2)[0])
+		side.Count(boundaryLabel(a))
 	}
+	w.pickHot(cands)
 	createTarget := ethcrypto.CreateAddress(from, nonce)
 	var specs []createSpec
 	for i := 0; i < 2; i++ {
-		sp := createSpec{caller: plainAddr(20), salt: byte(1 + r.Intn(2)), kind: r.Intn(5)}
-		sp.init = initCode(sp.kind, plainAddr(2))
-		sp.addr = ethcrypto.CreateAddress2(sp.caller, salt32(sp.salt), ethcrypto.Keccak256(sp.init))
+		sp := newSpec(r, progs[0], w.hot)
 		specs = append(specs, sp)
 		if !w.inUni[sp.addr] {
 			w.add(sp.addr, "")
@@ -395,14 +861,25 @@ func caseB(t *testing.T, idx int, r *Rng, side *Sidecar, cases *CasesFile) {
 				ro = rAbsent
 			}
 			w.desc[sp.addr] = "create2-target:" + w.plantRole(sp.addr, ro, nil)
+			side.Count("create2-target-" + boundaryLabel(sp.addr))
 		}
 	}
-	for i := 0; i < 2; i++ {
-		a := plainAddr(20 + i)
-		code, d := w.program(specs, 0)
-		w.add(a, "")
-		w.plantRole(a, rContract, code)
+	wipe := r.Chance(22)
+	for i, a := range progs {
+		w.plantRole(a, rContract, []byte{0})
+		code, d := w.program(a, specs, 0)
+		if wipe && i == 0 {
+			code, d = w.wipeProgram(from)
+			w.plantStorage(a)
+			w.plantStorage(a)
+			side.Count("scenario_wipe:" + boundaryLabel(a))
+		}
+		w.plantCode(a, code)
 		w.desc[a] = "contract{" + d + "}"
+		side.Count("contract-" + boundaryLabel(a))
+	}
+	if wipe {
+		w.plantNeighbours()
 	}
 	w.ct.id(runtimeR1)
 
@@ -410,10 +887,18 @@ func caseB(t *testing.T, idx int, r *Rng, side *Sidecar, cases *CasesFile) {
 	var to *common.Address
 	var data []byte
 	var d string
-	switch x := r.Intn(10); {
+	txKind := r.Intn(12)
+	if wipe {
+		txKind = 100
+	}
+	switch x := txKind; {
+	case x == 100:
+		a := progs[0]
+		to = &a
+		d = "call " + w.desc[a]
 	case x < 2:
 		k := r.Intn(5)
-		data = initCode(k, plainAddr(2))
+		data = initCode(k, w.hot)
 		if !w.inUni[createTarget] {
 			w.add(createTarget, "")
 			ro := w.randomRole()
@@ -423,12 +908,22 @@ func caseB(t *testing.T, idx int, r *Rng, side *Sidecar, cases *CasesFile) {
 			w.desc[createTarget] = "create-target:" + w.plantRole(createTarget, ro, nil)
 		}
 		d = fmt.Sprintf("create tx init%d at %s", k, w.desc[createTarget])
-	case x < 4 && len(w.blocked) > 0:
+	case x < 3 && len(w.blocked) > 0:
 		a := w.blocked[r.Intn(len(w.blocked))]
 		to = &a
 		d = "call app module account " + a.Hex()[2:10]
+	case x < 5:
+		// the sender calls a precompile itself
+		cc := w.cpcCall(w.ctx, from)
+		a := cc.to
+		to, data = &a, cc.data
+		d = "callcpc " + cc.desc
+	case x < 10:
+		a := progs[r.Intn(len(progs))]
+		to = &a
+		d = "call " + w.desc[a]
 	default:
-		a := w.pick()
+		a := w.target()
 		to = &a
 		d = "call " + w.desc[a]
 	}
@@ -460,7 +955,10 @@ func caseB(t *testing.T, idx int, r *Rng, side *Sidecar, cases *CasesFile) {
 	if value.Cmp(bal) > 0 {
 		value = bal // keep the message admissible for TransitionDb (clause 6); more than spendable is still possible
 	}
-	if to != nil && value.Sign() == 0 && !w.inUni[*to] {
+	if strings.HasPrefix(d, "callcpc") {
+		value = Bi(0)
+	}
+	if to != nil && value.Sign() == 0 && !w.inUni[*to] && !strings.HasPrefix(d, "callcpc") {
 		// a zero-value call only touches; whether an app module account is empty at that moment depends on
 		// Begin/EndBlock coin movements the branch run does not see, so such targets are always paid
 		a := w.pick()
@@ -496,7 +994,6 @@ func caseB(t *testing.T, idx int, r *Rng, side *Sidecar, cases *CasesFile) {
 	run.finish()
 
 	// 2. the same message as a signed transaction in a real block
-	root := c.Ctx()
 	bz, _, err := c.EthTxBytes(sender, &ethtypes.LegacyTx{Nonce: nonce, GasPrice: Bi(1), Gas: gasLimit, To: to, Value: value, Data: data})
 	require.NoError(t, err)
 	res := c.RunBlock([][]byte{bz})
@@ -512,8 +1009,14 @@ func caseB(t *testing.T, idx int, r *Rng, side *Sidecar, cases *CasesFile) {
 		for _, b := range w.blocked {
 			volatile[b] = true // Begin/EndBlock move the app module accounts' coins
 		}
+		rawAfter := rawScan(c, after)
+		for _, a := range rawOwners(rawAfter) {
+			if !w.inUni[a] {
+				side.Hit("C15/destroy/blocks/state_differs_from_statedb_run", fmt.Sprintf("case %d: %s owns x/evm keys after the block and was never named by the recorded run", idx, a.Hex()), co)
+			}
+		}
 		for i, a := range w.addrs {
-			got := observe(t, c, after, w.denoms, w.ct, a)
+			got := observe(t, c, after, w.denoms, w.ct, a, rawAfter)
 			want := run.preTx[i]
 			if !run.failed {
 				want = run.post[i]
@@ -531,11 +1034,10 @@ func caseB(t *testing.T, idx int, r *Rng, side *Sidecar, cases *CasesFile) {
 				if run.failed {
 					sig = "C15/destroy/failed_tx_left_trace"
 				}
-				side.Hit(sig, fmt.Sprintf("case %d: %s is %s after the block, expected %s", idx, a.Hex(), cqEntry(got), cqEntry(want)), co)
+				side.Hit(sig, fmt.Sprintf("case %d: %s is %s after the block, expected %s", idx, a.Hex(), entryFull(got), entryFull(want)), co)
 			}
 		}
 	}
-	_ = root
 	w.ctx = branch // the oracle and the Coq case are about the recorded run (equal to the block, checked above)
 	finishCase(t, idx, "B", run, []string{d}, true, side, cases)
 }
@@ -548,17 +1050,21 @@ func TestDriverDestroy(t *testing.T) {
 	n := EnvInt("VERIF_N", 400)
 	rng := NewRng(seed)
 	side := NewSidecar("destroy", seed,
-		"case = universe (module accounts, the five vesting kinds around the block time, base, contract, storage-only, balance-only, absent addresses, 3 denominations) + "+
-			"a sequence of raw cStateDb calls and real evm.Call/Create/Create2 runs on assembled bytecode (mode A), or one real transaction executed by TransitionDb on a branch and again in a real block (mode B: one case in eight); "+
-			"block times 1995..2100, the wall clock is never read; non-trivial = an account was deleted at commit, or the transaction failed as a whole, or an operation named a protected account; distinct by the full case term")
-	cases := NewCases(dir, "From Coq Require Import List ZArith Bool.\nFrom Evm Require Import Destroy CorrBase CorrDestroy.", "destroy_mismatches")
+		"case = universe (module accounts, the five vesting kinds around the block time, base, contract, storage-only, balance-only, absent addresses, 3 denominations; "+
+			"addresses and storage keys with boundary bytes: ..ff, ..00, ff suffixes of every length, all ff, neighbours in address order, mined CREATE2 salts / CREATE nonces) + "+
+			"a sequence of raw cStateDb calls, real evm.Call/Create/Create2 runs on assembled bytecode, calls of the ERC-20 / staking precompiles and bank writes of another module on the StateDB's current context (mode A), "+
+			"or one real transaction executed by TransitionDb on a branch and again in a real block (mode B: one case in eight); "+
+			"the raw x/evm store is scanned before the transaction, before the commit and after it; "+
+			"block times 1995..2100, the wall clock is never read; non-trivial = an account was deleted at commit, or the transaction failed as a whole, or an operation named a protected account, or another module wrote; distinct by the full case term")
+	cases := NewCases(dir, "From Coq Require Import List ZArith Bool.\nFrom Evm Require Import Destroy DestroyX CorrBase CorrDestroy.", "destroy_mismatches")
 	c := NewChain(t, time.Time{})
+	cpc := deployCpcs(t, c)
 	for i := 0; i < n; i++ {
 		r := rng.Fork(uint64(i))
 		if i%8 == 7 {
 			caseB(t, i, r, side, cases)
 		} else {
-			caseA(t, c, i, r, side, cases)
+			caseA(t, c, cpc, i, r, side, cases)
 		}
 	}
 	cases.Write(t, 40)
